@@ -785,7 +785,7 @@ func (g *generator) enterNextFinallyFrame() (canContinue bool) {
 			vm.stash = tf.stash
 			vm.privEnv = tf.privEnv
 			vm.pc = int(tf.finallyPos)
-			tf.catchPos = tryPanicMarker
+			tf.catchPos = -1
 			tf.finallyPos = -1
 			tf.finallyRet = -2 // -1 would cause it to continue after leaveFinally
 			return true
@@ -812,11 +812,8 @@ func (g *generator) step() (res Value, resultType resultType, ex *Exception) {
 		for {
 			ex = vm.runTryInner()
 			if ex != nil {
-				if vm.prg != nil || vm.pc != -2 {
-					// The exception was thrown in the outermost finally block, it never got to leaveFinally
-					// which does popTryFrame()
-					vm.popTryFrame()
-				}
+				// The exception was thrown in a finally block and not caught by any enclosing handler of
+				// the generator: handleThrow has already unwound the generator's try frames.
 				return
 			}
 
